@@ -171,6 +171,13 @@ func c05ige(c *wk.Ctx, idx int, key, iv, data []byte, shape string) {
 }
 
 func c05wrap(c *wk.Ctx, idx int, ak, msg []byte) {
+	// the message is handed over as a sub-slice of a larger buffer: what lies behind it is the caller's memory too
+	backing := make([]byte, len(msg)+48)
+	for i := range backing {
+		backing[i] = 0xA5
+	}
+	copy(backing, msg)
+	msg = backing[:len(msg)]
 	m0 := append([]byte{}, msg...)
 	a0 := append([]byte{}, ak...)
 	var out []byte
@@ -196,6 +203,12 @@ func c05wrap(c *wk.Ctx, idx int, ak, msg []byte) {
 	}
 	if !bytes.Equal(msg, m0) || !bytes.Equal(ak, a0) {
 		c.Viol("C05", idx, "wrap/encrypt-modified-caller-buffer", "", nil)
+	}
+	for i := len(msg); i < len(backing); i++ {
+		if backing[i] != 0xA5 {
+			c.Viol("C05", idx, "wrap/encrypt-wrote-behind-callers-slice", fmt.Sprintf("len(msg)=%d: byte %d behind the message (spare capacity of the caller's buffer) was overwritten", len(msg), i-len(msg)), len(msg))
+			break
+		}
 	}
 	// Decrypt: server->client direction (x=8)
 	padded := append(append([]byte{}, msg...), make([]byte, wantLen-len(msg))...)
